@@ -80,11 +80,67 @@ func buildGuest(c Config, importMem bool) []byte {
 		m.Imports = append(m.Imports, wb.Import{Module: "owner", Name: "memory", Kind: wb.KindMemory, Mem: lim})
 	} else {
 		m.Mem = &lim
-		m.Exports = append(m.Exports, wb.Export{Name: "memory", Kind: wb.KindMemory, Idx: 0})
+		if !c.Private {
+			m.Exports = append(m.Exports, wb.Export{Name: "memory", Kind: wb.KindMemory, Idx: 0})
+		}
 	}
 	i32, i64 := wb.I32, wb.I64
+	// callees of the nested grow requests (function imports must precede the definitions)
+	hostGrow := m.ImportFunc("env", "grow", []byte{i32}, []byte{i32})
+	var ownerGrow uint32
+	if importMem {
+		ownerGrow = m.ImportFunc("owner", "grow", []byte{i32}, []byte{i32})
+	}
 	m.ExportFunc("size", m.AddFunc(nil, []byte{i32}, nil, (&wb.Asm{}).MemorySize().B))
-	m.ExportFunc("grow", m.AddFunc([]byte{i32}, []byte{i32}, nil, (&wb.Asm{}).LocalGet(0).MemoryGrow().B))
+	localGrow := m.AddFunc([]byte{i32}, []byte{i32}, nil, (&wb.Asm{}).LocalGet(0).MemoryGrow().B)
+	m.ExportFunc("grow", localGrow)
+	growType := m.Type([]byte{i32}, []byte{i32})
+	table := []uint32{hostGrow, localGrow}
+	if importMem {
+		table = append(table, ownerGrow)
+	}
+	m.Tables = []wb.Table{{Elem: wb.FuncRef, Lim: wb.Limits{Min: uint32(len(table))}}}
+	m.Elems = []wb.Elem{{Mode: 0, Offset: wb.CI32(0), Funcs: table}}
+	// nested: n_<callee>_<variant>(d, a0, a1, v1, v2) =
+	//   [l: load8(a0); store8(a0,v1)]  prev = CALLEE(d)  [l: store8(a0,v2)]  [l,0: store8(a1,v1); x = load8(a1)]
+	//   result = prev | x<<32 | memory.size<<40
+	// variant l needs a non-empty memory before the call, 0 a non-empty memory after it, n neither.
+	callees := []struct {
+		k    string
+		emit func(a *wb.Asm) *wb.Asm
+	}{
+		{"hc", func(a *wb.Asm) *wb.Asm { return a.Call(hostGrow) }},
+		{"hi", func(a *wb.Asm) *wb.Asm { return a.I32Const(0).CallIndirect(growType, 0) }},
+		{"lc", func(a *wb.Asm) *wb.Asm { return a.Call(localGrow) }},
+		{"li", func(a *wb.Asm) *wb.Asm { return a.I32Const(1).CallIndirect(growType, 0) }},
+	}
+	if importMem {
+		callees = append(callees, struct {
+			k    string
+			emit func(a *wb.Asm) *wb.Asm
+		}{"oc", func(a *wb.Asm) *wb.Asm { return a.Call(ownerGrow) }}, struct {
+			k    string
+			emit func(a *wb.Asm) *wb.Asm
+		}{"oi", func(a *wb.Asm) *wb.Asm { return a.I32Const(2).CallIndirect(growType, 0) }})
+	}
+	for _, ce := range callees {
+		for _, variant := range []string{"l", "0", "n"} {
+			a := &wb.Asm{}
+			if variant == "l" {
+				a.LocalGet(1).Mem(opI32Load8U, 0, 0).Drop().LocalGet(1).LocalGet(3).Mem(opI32Store8, 0, 0)
+			}
+			ce.emit(a.LocalGet(0)).Op(opI64ExtI32U)
+			if variant == "l" {
+				a.LocalGet(1).LocalGet(4).Mem(opI32Store8, 0, 0)
+			}
+			if variant != "n" {
+				a.LocalGet(2).LocalGet(3).Mem(opI32Store8, 0, 0).
+					LocalGet(2).Mem(opI32Load8U, 0, 0).Op(opI64ExtI32U).I64Const(32).Op(opI64Shl).Op(opI64Or)
+			}
+			a.MemorySize().Op(opI64ExtI32U).I64Const(40).Op(opI64Shl).Op(opI64Or)
+			m.ExportFunc("n_"+ce.k+"_"+variant, m.AddFunc([]byte{i32, i32, i32, i32, i32}, []byte{i64}, nil, a.B))
+		}
+	}
 	ld := func(name string, op byte, align uint32, res byte) {
 		m.ExportFunc(name, m.AddFunc([]byte{i32}, []byte{res}, nil, (&wb.Asm{}).LocalGet(0).Mem(op, align, 0).B))
 	}
@@ -168,6 +224,9 @@ type inst struct {
 	lastSrc  string
 	grown    bool
 	diverged bool // implementation and model disagree about the page count: stop using this instance
+	// afterNested: the state comparison that follows a nested request (sizes, allocator view, complete contents,
+	// guest boundary accesses; not the host accessor / atomics probes)
+	afterNested bool
 }
 
 func engineConfig(engine string) wazero.RuntimeConfig {
@@ -208,6 +267,17 @@ func (x *explorer) open() bool {
 		rc = rc.WithCoreFeatures(api.CoreFeaturesV2 | experimental.CoreFeaturesThreads)
 	}
 	x.rt = wazero.NewRuntimeWithConfig(x.ctx, rc)
+	// the host callee of the nested grow requests: grows the CALLER's memory through the host API
+	if _, err := x.rt.NewHostModuleBuilder("env").NewFunctionBuilder().
+		WithFunc(func(_ context.Context, mod api.Module, d uint32) uint32 {
+			prev, ok := mod.Memory().Grow(d)
+			if !ok {
+				return 0xffffffff
+			}
+			return prev
+		}).Export("grow").Instantiate(x.ctx); err != nil {
+		panic("HARNESS-ERROR: host module: " + err.Error())
+	}
 	compile := func(bin []byte, who string) (wazero.CompiledModule, bool) {
 		cm, err := x.rt.CompileModule(x.ctx, bin)
 		x.res.Evals++
@@ -325,6 +395,13 @@ func newGuest(name string, mod api.Module) *guest {
 	for _, f := range []string{"wait32", "notify"} {
 		if fn := mod.ExportedFunction(f); fn != nil {
 			g.fn[f] = fn
+		}
+	}
+	for k := range nestedCallee {
+		for _, variant := range []string{"l", "0", "n"} {
+			if fn := mod.ExportedFunction("n_" + k + "_" + variant); fn != nil {
+				g.fn["n_"+k+"_"+variant] = fn
+			}
 		}
 	}
 	return g
@@ -1178,7 +1255,9 @@ func (in *inst) enter(full bool) {
 	in.checkSizes()
 	if full {
 		in.checkContent(true) // what the transition left: preservation and zero fill, also as the guests see it
-		if in.x.light {
+		if in.x.light || in.afterNested {
+			// after a nested request: the host accessors carry no engine-side state and are probed after every plain
+			// request that reaches the same (pages, capacity)
 			in.probeGuest()
 			in.writeMarkers()
 			return
@@ -1222,6 +1301,13 @@ func (in *inst) apply(op Op, full bool) bool {
 			return false
 		}
 	default:
+		if isNested(op.Src) {
+			var stop bool
+			if gotPrev, gotOK, stop = in.applyNested(op, before, after, wantPrev, wantOK); stop {
+				return false
+			}
+			break
+		}
 		g := in.owner
 		if strings.HasPrefix(op.Src, "iguest") {
 			g = in.imp
@@ -1300,12 +1386,14 @@ func (in *inst) apply(op Op, full bool) bool {
 	if changed {
 		in.prev = before
 		in.grown = true
-		in.lastSrc = srcClass(op.Src)
+		in.lastSrc = growerClass(op.Src)
 	}
 	in.path = append(in.path, op)
 	in.cur = nil
 	dbgPoint("after " + in.histString())
+	in.afterNested = isNested(op.Src)
 	in.enter(full)
+	in.afterNested = false
 	dbgPoint("after enter " + in.histString())
 	if !changed {
 		in.path = in.path[:len(in.path)-1] // a refused / zero grow is not part of the history of the state
@@ -1317,7 +1405,112 @@ func srcClass(s string) string {
 	if s == "host" {
 		return "host"
 	}
+	if isNested(s) {
+		return "nested:" + nestedCallee[nestedKind(s)]
+	}
 	return "guest"
+}
+
+// growerClass (state key of the thorough tier): who executed the last successful grow, the host API or guest code.
+func growerClass(s string) string {
+	if s == "host" || (isNested(s) && nestedKind(s)[0] == 'h') {
+		return "host"
+	}
+	return "guest"
+}
+
+// visibility of the memory for the module that issues a nested request (part of the nested signatures).
+func (in *inst) visibility(g *guest) string {
+	switch {
+	case g == in.imp:
+		return "imported"
+	case in.x.cfg.Private:
+		return "local-not-exported"
+	}
+	return "local-exported"
+}
+
+// applyNested issues one nested grow request: a guest function that loads and stores, CALLS something that grows
+// the memory (by op.Delta), and stores, loads and reads memory.size again in the same activation. Compared: the
+// call completes; the callee's result (previous size); the load after the call; memory.size after the call; and,
+// through the state comparison that follows, that both stores after the call landed in the memory everybody else
+// sees. stop: the instance diverged.
+func (in *inst) applyNested(op Op, before, after, wantPrev uint32, wantOK bool) (gotPrev uint32, gotOK bool, stop bool) {
+	g := in.owner
+	if strings.HasPrefix(op.Src, "inest:") {
+		g = in.imp
+	}
+	k := nestedKind(op.Src)
+	callee := nestedCallee[k]
+	e, vis := in.x.engine, in.visibility(g)
+	variant := "n"
+	if before > 0 {
+		variant = "l"
+	} else if after > 0 {
+		variant = "0"
+	}
+	a0, a1 := uint64(0), uint64(0)
+	if after > 0 {
+		a1 = uint64(after)*pageSize - 1
+	}
+	v1, v2 := uint64(in.nextByte()), uint64(in.nextByte())
+	r := in.call(g, "n_"+k+"_"+variant, uint64(op.Delta), a0, a1, v1, v2)
+	if r.kind != "ok" {
+		if r.kind == "oob" && in.mi.Pages() == after {
+			// the callee did what the reference says; an access of the caller around the call trapped
+			sig := fmt.Sprintf("%s:nested-grow:%s:%s:in-bounds-access-around-the-call-traps", e, callee, vis)
+			if pagesClass(after) == "65536-pages" {
+				sig = fmt.Sprintf("%s:guest-access:in-bounds-traps:%s:%s", e, pagesClass(after), in.place(g))
+			}
+			in.viol(sig, fmt.Sprintf("{load8(0); store8(0); %s grow(%d); store8(0); store8(%d); load8(%d); memory.size} in one function of the %s module: an in-bounds access traps out-of-bounds (memory has %d pages)",
+				callee, op.Delta, a1, a1, g.name, after))
+			// keep the model in step with what was executed before the trap
+			for _, a := range []uint64{a0, a1} {
+				if a < uint64(len(in.mi.Buffer)) {
+					in.m.set(a, in.mi.Buffer[a])
+				}
+			}
+			return wantPrev, wantOK, false // result unobservable; the successor state is verified by the caller
+		}
+		in.m.pages = before
+		in.viol(fmt.Sprintf("%s:nested-grow:%s:%s:%s", e, callee, vis, r.kind), fmt.Sprintf("function of the %s module that does %s grow(%d) between memory accesses fails: %s", g.name, callee, op.Delta, firstLine(r.err)))
+		in.diverged = true
+		return 0, false, true
+	}
+	gotOK = uint32(r.v) != 0xffffffff
+	gotPrev = uint32(r.v)
+	if variant == "l" {
+		in.m.set(a0, byte(v2))
+	}
+	if variant != "n" {
+		in.m.set(a1, byte(v1))
+		in.eval()
+		if ld := byte(r.v >> 32); ld != byte(v1) {
+			in.viol(fmt.Sprintf("%s:nested-grow:%s:%s:load-after-the-call-differs", e, callee, vis),
+				fmt.Sprintf("store8(%d,%#x); load8(%d) after %s grow(%d) in the same function reads %#x", a1, v1, a1, callee, op.Delta, ld))
+		}
+	}
+	in.eval()
+	if sz := uint32(r.v >> 40); sz != after && gotOK == wantOK {
+		sig := fmt.Sprintf("%s:nested-grow:%s:%s:memory.size-after-the-call-differs", e, callee, vis)
+		if sz == 0 && after == 65536 {
+			sig = fmt.Sprintf("%s:memory.size:%s:%s:returns-0", e, pagesClass(after), in.place(g))
+		}
+		in.viol(sig, fmt.Sprintf("memory.size after %s grow(%d) in the same function is %d, reference %d", callee, op.Delta, sz, after))
+	}
+	// the stores after the call must be visible to the host right away (a stale base loses them)
+	if gotOK == wantOK {
+		wf := func() string {
+			return fmt.Sprintf("store8 after %s grow(%d) in the same function of the %s module", callee, op.Delta, g.name)
+		}
+		if variant == "l" {
+			in.verifyBytes(a0, 1, fmt.Sprintf("%s:nested-grow:%s:%s:store-after-the-call", e, callee, vis), wf)
+		}
+		if variant != "n" {
+			in.verifyBytes(a1, 1, fmt.Sprintf("%s:nested-grow:%s:%s:store-after-the-call", e, callee, vis), wf)
+		}
+	}
+	return gotPrev, gotOK, false
 }
 
 func (in *inst) key() string {
@@ -1338,8 +1531,8 @@ func (x *explorer) hugeRealloc(capPages, newPages uint32) bool {
 // 4 GiB of page faults (5-30 s on this class of machine; page-fault throughput is a machine-wide bottleneck).
 func (x *explorer) allowHugeRealloc(depth int, pages uint32, op Op) bool {
 	c := x.cfg
-	if depth != 0 || op.Delta != c.Bound()-pages || c.Prime != nil {
-		return false
+	if depth != 0 || op.Delta != c.Bound()-pages || c.Prime != nil || isNested(op.Src) {
+		return false // nested requests reach multi-GiB sizes through capacity-from-max and the custom allocators only
 	}
 	switch x.tier.Name {
 	case "thorough":
@@ -1412,7 +1605,7 @@ func (x *explorer) explore() {
 		// refused / zero requests first: they leave the state unchanged and share one instance
 		var changing []Op
 		for _, src := range sources(x.cfg) {
-			for _, d := range deltasAt(x.cfg, st.pages) {
+			for _, d := range deltasFor(x.cfg, st.pages, src) {
 				op := Op{src, d}
 				np := uint64(st.pages) + uint64(d)
 				if d != 0 && np <= uint64(x.cfg.GrowBound()) {
